@@ -75,6 +75,14 @@ def run_case(ctx, case_seed):
     per_cassette_tokens = {}
     for kind, prefix in CONFIGS:
         with open_box(kind, prefix=prefix, hostile_dir=(case_seed % 2 == 0)) as box:
+            lookup_start = None
+            if box.fake is not None and case_seed % 2:
+                # a process that has been running for a long time: its clock is past the time its modules were imported; lookups give
+                # a start date (as the studio does) and no end
+                import datetime as _dt
+                box.fake.now = _dt.datetime.utcnow().replace(microsecond=0) + _dt.timedelta(days=300 + case_seed % 50, hours=case_seed % 24)
+                lookup_start = box.fake.now - _dt.timedelta(days=2)
+                ctx.count('s3_cases_with_a_clock_after_import')
             saved = []
             reader = box.reader()
             hrng = random.Random(case_seed + 77)
@@ -122,7 +130,7 @@ def run_case(ctx, case_seed):
                         got = None
                     else:
                         skip = path == 'lookup'
-                        props = RecordingLookupProperties(None, metadata=(dict(flt) if flt is not None else None), limit=limit,
+                        props = RecordingLookupProperties(lookup_start, metadata=(dict(flt) if flt is not None else None), limit=limit,
                                                           random_sample=rnd, skip_incomplete=skip)
                         got = list(find_matching_recording_ids(TapeRecorder(reader), cat, props))
                         if skip:
